@@ -282,11 +282,12 @@ PROPS["C04"] = dict(
 
 PROPS["C18"] = dict(
     title="Unacknowledged mode is one-way unless closure is requested; closure works",
-    module="Cfdp.Props.C18s",
+    module="Cfdp.Props.C18l",
     namespace="Cfdp.Loop",
     theorems=["C18_recv_oneway", "C18_recv_silent_without_closure", "C18_complete_means_complete",
               "Cfdp.Send.C18_send_ends_on_eof", "Cfdp.Send.C18_send_waits", "Cfdp.Send.C18_send_reports_outcome",
-              "Cfdp.Send.C18_send_ignores_finished_without_closure", "Cfdp.Recv.C18_recv_closure_ends_quietly", "C18_send_data_once"],
+              "Cfdp.Send.C18_send_ignores_finished_without_closure", "Cfdp.Recv.C18_recv_closure_ends_quietly", "C18_send_data_once",
+              "C18_closure_finished_repeated", "C18_closure_lost_finisheds"],
     engines=["recv", "send"],
     design="§6 C18",
     technique="Lean 4 invariant proofs over all event histories of the receiver model, step theorems on the sender model + differential correspondence",
@@ -298,7 +299,12 @@ PROPS["C18"] = dict(
                 "isComplete_iff); the sender without closure is Terminated by transmitting its EOF and tells the user (C18_send_ends_on_eof), with closure no "
                 "transmission ends it (C18_send_waits) and the Finished PDU ends it with the receiver's condition and delivery code in the user's Finished indication "
                 "(C18_send_reports_outcome); without closure a Finished PDU is rejected as unexpected; over every history the file-data PDUs an unacknowledged sender transmits, in order, are the file cut into consecutive segments from offset 0 - data goes out exactly once, nothing is retransmitted whatever the peer sends (no request is ever queued) - and the EOF phase of a file transfer is reached only after the whole file (C18_send_data_once in Props/C18s.lean, from C07_first_pass); an unacknowledged receiver repeating its closure Finished PDU ends quietly at the first limit (C18_recv_closure_ends_quietly). Tie to the code: recv/send engines; oracles recv_silent_link, "
-                "complete_without_data, delivery_code_complete_without_data, send_shape, closure_wait, no_closure_end."),
+                "complete_without_data, delivery_code_complete_without_data, send_shape, closure_wait, no_closure_end. "
+                "Closure under repeated loss (Props/C18l.lean): nothing is acknowledged in this mode, so the receiver repeats its closure Finished PDU on the positive-ACK timer; the whole "
+                "state after 'expiry, then transmission' is characterised (unack_fin_round_state, over the mode-independent htm_fin_state), so as long as the clock keeps both counters below "
+                "their limits (FairT, limits derived) every expiry is followed by the transmission of that same Finished PDU and the outcome recorded stands "
+                "(C18_closure_finished_repeated), and whichever of them reaches the sender ends it and its user is told the receiver's outcome (C18_closure_lost_finisheds); at the limit "
+                "the receiver ends quietly (C18_recv_closure_ends_quietly)."),
     level_note=RECV_SEND_NOTE + " 'The sender transmits metadata, the file data once and EOF' is C07's first-pass statement (send engine oracle send_shape); "
                "that the sender waits 'up to its limits' is C17.",
     rule=("recv engine: one history in three is unacknowledged (closure on/off, fault handlers incl. ignore/abandon/suspend for CheckLimitReached), losses of metadata / data / EOF, "
